@@ -6,6 +6,6 @@ import "verif/mc/checks/gen"
 func main() {
 	gen.Pre = lazyClause
 	gen.Main("C10", "exploration",
-		"corpus x runtimes x value trees as in C04 (every kind incl. string, bytes, repeated bytes/strings, maps with string/bytes keys and values, oneof string/bytes, nested messages, extensions) x EVERY legal encoding variant of the tree as in C06 (order, packing, repeated / split occurrences, all map-entry shapes incl. an unknown field inside an entry, unknown fields incl. padded keys at every position, the same one level down): generated Unmarshal (default generator options, i.e. safe mode) from a private buffer; the decoded tree is snapshotted, then the buffer is overwritten with its complement, with zeros, and recycled for another decode; the tree read back after each step must equal the snapshot. distinct_nontrivial = cases holding variable-length data (string/bytes/message/map/unknown) that survived all clobbers. lazyproto clause: 18 messages (varint/packed/repeated strings x nested depth 2-3 x fixed32/fixed64/bytes) x {Decoder.Decode safe mode, Decode()} x {complement, zero, recycled for another message}: after the clobber every one of the 26 accessors, and NestedResults/NestedResult decoded lazily AFTER the clobber, must still give the reference values of the original input (C14/C15 additionally clobber the buffer in every explored history/schedule).",
+		"corpus x runtimes x value trees as in C04 (every kind incl. string, bytes, repeated bytes/strings, maps with string/bytes keys and values, oneof string/bytes, nested messages, extensions) x EVERY legal encoding variant of the tree as in C06 (order, packing, repeated / split occurrences, all map-entry shapes incl. an unknown field inside an entry, unknown fields incl. padded keys at every position, the same one level down): generated Unmarshal (default generator options, i.e. safe mode) from a private buffer; the decoded tree is snapshotted, then the buffer is overwritten with its complement, with zeros, and recycled for another decode; the tree read back after each step must equal the snapshot. distinct_nontrivial = cases holding variable-length data (string/bytes/message/map/unknown) that survived all clobbers. lazyproto clause: 18 messages (varint/packed/repeated strings x nested depth 2-3 x fixed32/fixed64/bytes) x {Decoder.Decode safe mode, Decode()} x {complement, zero, recycled for another message}: after the clobber every one of the 26 accessors, and NestedResults/NestedResult decoded lazily AFTER the clobber, must still give the reference values of the original input (C14/C15 additionally clobber the buffer in every explored history/schedule). ROUND 7 ADDITION: the snapshots clone strings and string map keys (a string header copied by value still points into the caller's buffer).",
 		"with enableunsafedecode=true / fast mode aliasing is opt-in and not checked")
 }
